@@ -14,7 +14,7 @@ ASSUMPTIONS = ["insertions are separated from their neighbours by blanks and are
 TRUSTED = ["the expected message prefixes are taken from the English message catalogue: `Unknown Character: \"x\"` and `Syntax Error \"WORD\"`"]
 
 BAD_CHARS = ["!", "β", "\\", "₩", "¿"]
-BAD_WORDS = ["ZZZ", "Foo", "QQQ", "Xyzzy"]
+BAD_WORDS = ["ZZZ", "Foo", "QQQ", "Xyzzy", "Endx", "ENDING", "End_1"]      # words that merely begin with End/END are unknown words like any other
 
 def valid_lines(rng):
     lines = []
